@@ -63,9 +63,12 @@ def dec(tok):
     body = tok[2:]
     return "".join(chr(int(c)) for c in body.split(".")) if body else ""
 
+ANNOTATIONS = ("title", "description", "examples", "default", "$comment", "deprecated", "readOnly", "writeOnly")
+
 def other_names(op):
+    """the keywords of the document that are outside the documented table (annotation keywords assert nothing and are not 'unsupported')"""
     t = C.op_body(op).split(" ")
-    return [dec(t[i + 2]) for i in range(len(t) - 2) if t[i] == "(" and t[i + 1] == "other"]
+    return [n for n in (dec(t[i + 2]) for i in range(len(t) - 2) if t[i] == "(" and t[i + 1] == "other") if n not in ANNOTATIONS]
 
 def make_key(known_keys, rejected):
     known = lambda x: any(C.key_matches(k, x) for k in known_keys)
@@ -73,6 +76,11 @@ def make_key(known_keys, rejected):
         t = C.op_body(op).split(" ")
         why = [w for w in C.op_comment(op).replace("why=", "").split(",") if w]
         if t[1] == "kw": return "strict:" + t[2]
+        # A listed finding class is a region where the Lean model MIRRORS the defective behaviour (impl = model != spec).
+        # A disagreement with the specification that the model does not predict is never a listed finding, whatever
+        # classes the document belongs to.
+        if impl != M:
+            return "%s:unpredicted-by-model:%s" % (t[1], "+".join(w for w in why if w not in ("IN-EQ", "IN-RT")) or "none")
         if t[1] == "conv":
             o = impl.split(" ")
             if "panic" in o:
